@@ -14,7 +14,7 @@ import core  # noqa: E402
 def families(tier):
     import fam_arith
     fams = [("arith", fam_arith.cases(quick=(tier == "quick")))]
-    for modname in ("fam_order", "fam_ctrl", "fam_data", "fam_coll", "fam_call", "fam_compose"):
+    for modname in ("fam_order", "fam_ctrl", "fam_data", "fam_coll", "fam_call", "fam_compose", "fam_atomic"):
         try:
             mod = __import__(modname)
         except ModuleNotFoundError:
